@@ -155,23 +155,6 @@ def specPair (h : Bytes) : Bytes × Bytes :=
   if toDS != fromDS then sortPair ((h.drop 4).take 6) ((h.drop 10).take 6)
   else sortPair ((h.drop 10).take 6) ((h.drop 16).take 6)
 
-def daOf (h : Bytes) : Bytes :=
-  let toDS := h.getD 1 0 &&& 1 != 0
-  if toDS then (h.drop 16).take 6 else (h.drop 4).take 6
-def saOf (h : Bytes) : Bytes :=
-  let toDS := h.getD 1 0 &&& 1 != 0
-  let fromDS := h.getD 1 0 &&& 2 != 0
-  if toDS && fromDS then (h.drop 24).take 6 else if fromDS then (h.drop 16).take 6 else (h.drop 10).take 6
-
-/-- Michael verification of a decapsulated TKIP MSDU (only for to-DS / from-DS frames, where the key half is defined) -/
-def michaelOk (ptk h pt mic : Bytes) : Bool :=
-  let toDS := h.getD 1 0 &&& 1 != 0
-  let fromDS := h.getD 1 0 &&& 2 != 0
-  if toDS == fromDS then true else
-  let key := if toDS then (ptk.drop 56).take 8 else (ptk.drop 48).take 8
-  let prio : UInt8 := if Spec.hasQos h then h.getD (Spec.qosOffset h) 0 &&& 0x0f else 0
-  Spec.michael key (daOf h) (saOf h) prio pt == mic
-
 def decapWith (cipher : String) (key : Bytes) (h body : Bytes) : Option (Bytes × Option Bytes) :=
   if cipher == "wep" then (Spec.wepDecap key body).map fun m => (m, none)
   else if cipher == "ccmp" then (Spec.ccmpDecap (aes ((key.drop 32).take 16)) h body).map fun m => (m, none)
@@ -235,7 +218,7 @@ def judge (st : OState) (op : String) (frame : Bytes) (ann : List String) (out :
         | none => none
       match verified with
       | [] => "violates reject reported-decrypted-but-no-installed-key-verifies"
-      | (_, k, m, some mic) :: _ => if michaelOk k h m mic then "ok" else "violates tkip-michael"
+      | (_, k, m, some mic) :: _ => if Spec.michaelVerifies k h m mic then "ok" else "violates tkip-michael"
       | _ => if prot == "0" then "ok" else "violates still-marked-protected"
     else "ok"
   | _, _, _ => "violates unparsable-output"
